@@ -5,7 +5,7 @@ import gen_common
 import gen_modes
 import probes
 
-DEP_FILES = ["BuildTagModel.v", "BuildTagProofs.v", "DirectiveLeftProofs.v", "AliasModel.v", "AliasProofs.v"]
+DEP_FILES = ["BuildTagModel.v", "BuildTagProofs.v", "DirectiveLeftProofs.v", "AliasModel.v", "AliasProofs.v", "ScopeModel.v", "ScopeProofs.v"]
 PID = "C13"
 
 
